@@ -7,7 +7,7 @@ package forwarder
 // connection loop (http.ReadRequest, scheme fix-up, modifier stack, upgrade handling) runs over scripted request
 // bytes; the next hop is a recording RoundTripper.
 //
-//vf:assume C01: header lists of <=2 (quick) / <=3 (thorough) fields drawn from a 19-entry pool of names (end-to-end, hop-by-hop, Connection with nominations, Via, X-Forwarded-*, User-Agent, Authorization) with symbolic 2-byte printable values where the value is free; methods GET/POST; absolute- and origin-form targets with an escaped query; HTTP/1.0 and 1.1; bodies: none / Content-Length / chunked in 1 or 2 chunks (3 symbolic bytes); first or second request of a keep-alive connection
+//vf:assume C01: header lists of <=2 (quick) / <=3 (thorough) fields drawn from a 21-entry pool of names (end-to-end, hop-by-hop, Connection with nominations, Via, X-Forwarded-*, User-Agent, Authorization) with symbolic 2-byte printable values where the value is free; methods GET/POST; absolute- and origin-form targets with an escaped query; HTTP/1.0 and 1.1; bodies: none / Content-Length / chunked in 1 or 2 chunks (3 symbolic bytes); first or second request of a keep-alive connection
 //vf:assume C01: the next hop is a recording RoundTripper: what http.Transport does afterwards (Accept-Encoding: gzip, serialisation, connection reuse) and bodies near the 4 KiB / 32 KiB buffer sizes are outside
 
 import (
@@ -29,6 +29,7 @@ var vfFieldPool = []vfFieldSpec{
 	{"Keep-Alive", "timeout=5"}, {"Proxy-Connection", "keep-alive"}, {"Te", "trailers"}, {"Proxy-Authorization", ""}, {"Proxy-Authenticate", "x"},
 	{"Connection", "close"}, {"Connection", "X-B"}, {"Connection", "x-a, Keep-Alive"},
 	{"Via", "1.0 alpha"}, {"Via", ""}, {"X-Forwarded-For", "1.2.3.4"}, {"X-Forwarded-For", ""}, {"X-Forwarded-Proto", "https"},
+	{"X-Forwarded-Host", ""}, {"X-Forwarded-Url", ""},
 }
 
 func vfPrintable(label string, n int) string {
@@ -213,7 +214,12 @@ func vfH_C01_pipe() {
 	if len(vfValues(sent, "X-Forwarded-Proto")) == 0 {
 		vfrt.Assert(hdr.Get("X-Forwarded-Proto") == "http", "c01/forwarded-proto-filled")
 	}
-	vfrt.Assert(hdr.Get("X-Forwarded-Host") == "example.com", "c01/forwarded-host-filled")
+	if len(vfValues(sent, "X-Forwarded-Host")) == 0 {
+		vfrt.Assert(hdr.Get("X-Forwarded-Host") == "example.com", "c01/forwarded-host-filled")
+	}
+	if len(vfValues(sent, "X-Forwarded-Url")) == 0 {
+		vfrt.Assert(hdr.Get("X-Forwarded-Url") != "", "c01/forwarded-url-filled")
+	}
 	if len(vfValues(sent, "User-Agent")) == 0 {
 		ua, present := hdr["User-Agent"]
 		vfrt.Assert(present && len(ua) == 1 && ua[0] == "", "c01/no-user-agent-invented")
